@@ -178,7 +178,7 @@ def histories(run, names, num, depth, accept, part='history', max_iters=(1, 2, 3
         return d
     # hand-written histories, whatever the seed generated: every query before and after an optimizer run that ends at max_iter, after an
     # in-place and after a re-assigning pose edit, after each kind of measurement edit; then a second optimizer call
-    qs = ('calc_chi2', 'edge_chi2', 'edge_error', 'edge_jacobians', 'edge_contribs')
+    qs = ('calc_chi2', 'edge_chi2', 'edge_error', 'edge_jacobians', 'edge_contribs', 'edge_numjac')
     for n in names:
         beh = [a('Query', q=q, target=t) for t in (1, 2) for q in qs]
         beh += [a('OptCall', maxIter=2, fixFirst=True, tol='0')] + [a('Query', q=q, target=t) for t in (1, 2, 3) for q in qs]
